@@ -9,8 +9,9 @@ use std::rc::Rc;
 use std::sync::atomic::{AtomicUsize, Ordering};
 use std::time::Duration;
 
-const SIGS: [i32; 3] = [10, 12, 28]; // USR1, USR2, WINCH
-static HANDLED: [AtomicUsize; 3] = [AtomicUsize::new(0), AtomicUsize::new(0), AtomicUsize::new(0)];
+const SIGS: [i32; 5] = [10, 12, 28, 29, 17]; // USR1, USR2, WINCH, IO, CHLD
+static HANDLED: [AtomicUsize; 5] =
+    [AtomicUsize::new(0), AtomicUsize::new(0), AtomicUsize::new(0), AtomicUsize::new(0), AtomicUsize::new(0)];
 
 extern "C" fn on_signal(sig: i32) {
     for (i, s) in SIGS.iter().enumerate() {
@@ -25,6 +26,8 @@ fn to_signal(n: i32) -> Option<Signal> {
         10 => Some(Signal::SIGUSR1),
         12 => Some(Signal::SIGUSR2),
         28 => Some(Signal::SIGWINCH),
+        29 => Some(Signal::SIGIO),
+        17 => Some(Signal::SIGCHLD),
         _ => None,
     }
 }
